@@ -6,6 +6,7 @@
 package norm
 
 import (
+	"bytes"
 	"fmt"
 	"go/ast"
 	"go/parser"
@@ -453,7 +454,8 @@ func Normalize(dir string, known map[string]bool, env []string) (map[string][]by
 			})
 		}
 	}
-	if len(unknown) == 0 && !unknownTypes && !unknownFields {
+	closureVars := hasClosureVarCandidates(dir)
+	if len(unknown) == 0 && !unknownTypes && !unknownFields && !closureVars {
 		return nil, nil, nil
 	}
 	overlay := map[string][]byte{}
@@ -467,6 +469,22 @@ func Normalize(dir string, known map[string]bool, env []string) (map[string][]by
 			for _, d := range decls2 {
 				if !known[d] {
 					unknown[d] = true
+				}
+			}
+		}
+	}
+	// mark the literals of the files on disk (see markOriginals)
+	marked := map[string]bool{}
+	if files, err := libFiles(dir); err == nil {
+		for _, fn := range files {
+			src, had := overlay[fn]
+			if !had {
+				src, _ = os.ReadFile(fn)
+			}
+			if ms := markOriginals(src); !bytes.Equal(ms, src) {
+				overlay[fn] = ms
+				if !had {
+					marked[fn] = true
 				}
 			}
 		}
@@ -572,6 +590,11 @@ func Normalize(dir string, known map[string]bool, env []string) (map[string][]by
 				if failed[key] {
 					return true
 				}
+				// a helper that calls itself stays a function: copying its body would copy the recursive call
+				if callsItself(pkg.TypesInfo, h.decl, fn.Origin()) {
+					failed[key] = true
+					return true
+				}
 				// never inline a helper into itself
 				for _, d := range f.Decls {
 					if fd, ok := d.(*ast.FuncDecl); ok && fd == h.decl && ce.Pos() >= fd.Pos() && ce.End() <= fd.End() {
@@ -624,6 +647,10 @@ func Normalize(dir string, known map[string]bool, env []string) (map[string][]by
 			notes = append(notes, "could not inline "+key+": "+err.Error())
 			continue
 		}
+		if res.Literalized && os.Getenv("BB_NOLIT") != "" {
+			failed[key] = true
+			continue
+		}
 		overlay[fname] = res.Content
 		lit := ""
 		if res.Literalized {
@@ -637,7 +664,7 @@ func Normalize(dir string, known map[string]bool, env []string) (map[string][]by
 		notes = append(notes, ns...)
 	}
 	// local variables of unknown struct types that only bundle values: one variable per field
-	if (unknownTypes || len(overlay) > 0) && os.Getenv("BB_NOSRA") == "" {
+	if (unknownTypes || closureVars || len(overlay) > 0) && os.Getenv("BB_NOSRA") == "" {
 		tried := map[string]bool{}
 		for iter := 0; iter < 40; iter++ {
 			cfg := &packages.Config{
@@ -659,6 +686,9 @@ func Normalize(dir string, known map[string]bool, env []string) (map[string][]by
 				return b
 			}
 			fn, out, note := foldConstIf(pkgs[0], content)
+			if fn == "" {
+				fn, out, note = inlineClosureVar(pkgs[0], content, tried)
+			}
 			if fn == "" {
 				fn, out, note = scalarReplace(pkgs[0], KnownTypes, content, tried)
 			}
@@ -709,6 +739,12 @@ func Normalize(dir string, known map[string]bool, env []string) (map[string][]by
 			notes = append(notes, note)
 		}
 	}
+	// files that only received markers are as on disk
+	for fn := range marked {
+		if disk, err := os.ReadFile(fn); err == nil && bytes.Equal(bytes.ReplaceAll(overlay[fn], []byte(origMarker), nil), disk) {
+			delete(overlay, fn)
+		}
+	}
 	if len(overlay) == 0 {
 		return nil, notes, nil
 	}
@@ -747,4 +783,18 @@ func fieldsOf(pkg *packages.Package) map[string]string {
 		}
 	}
 	return out
+}
+
+// callsItself: the body of decl contains a call of the function it declares.
+func callsItself(info *types.Info, decl *ast.FuncDecl, self *types.Func) bool {
+	found := false
+	ast.Inspect(decl, func(n ast.Node) bool {
+		if ce, ok := n.(*ast.CallExpr); ok && !found {
+			if fn, _ := typeutil.Callee(info, ce).(*types.Func); fn != nil && fn.Origin() == self {
+				found = true
+			}
+		}
+		return !found
+	})
+	return found
 }
